@@ -128,7 +128,7 @@ class Ctx:
 
 DEFAULT_WEIGHTS = {
     "direct": 5, "reuse": 2, "object": 5, "callback": 3, "returned": 2, "variable": 2, "list": 2, "dict": 1,
-    "field": 2, "recursion": 2, "mutual": 2, "nested": 1, "static": 1, "param_object": 1, "returned_object": 1, "try": 1,
+    "field": 2, "recursion": 2, "mutual": 2, "nested": 1, "static": 1, "param_object": 1, "returned_object": 1, "try": 1, "kwcallback": 3,
 }
 
 
@@ -545,6 +545,49 @@ class Gen:
             self.value_access[g.qual] = gform.ref
             self.call_line(ctx, f"{hexpr}({gexpr}, {self.arg(ctx)})", self.nsite(hform, h.qual))
 
+    def e_kwcallback(self, ctx, depth):
+        """a callback handed over as a keyword argument next to 1-2 other keyword arguments, written in alphabetical or in another
+        order, all-keyword / after a positional argument / to keyword-only parameters; the callee calls the callback"""
+        if self.js:
+            return self.e_callback(ctx, depth)
+        rng = self.rng
+        t = self.pick_mod(ctx.mod)
+        n_kw = rng.choice([2, 2, 3])
+        mode = rng.choice(["all-keyword", "after-positional", "keyword-only-parameters"])
+        pool = ["alpha", "beta", "count", "func", "handler", "on_done", "value", "zeta"]
+        cbname = rng.choice(["func", "handler", "on_done"])
+        others = rng.sample([p for p in pool if p not in ("func", "handler", "on_done")], n_kw - 1)
+        kws = sorted([cbname] + others)
+        order = rng.choice(["alphabetical", "non-alphabetical"])
+        written = list(kws)
+        if order == "non-alphabetical":
+            # a permutation in which the callback does not stand where it stands alphabetically
+            for _ in range(50):
+                rng.shuffle(written)
+                if written != kws and written.index(cbname) != kws.index(cbname):
+                    break
+            else:
+                written = list(reversed(kws))
+        pos = ["first"] if mode == "after-positional" else []
+        decl = list(kws)
+        rng.shuffle(decl)
+        if mode == "keyword-only-parameters":
+            params = ["first", "*"] + decl if rng.random() < 0.5 else ["*"] + decl
+            if params[0] == "first":
+                pos = ["first"]
+        else:
+            params = pos + decl
+        h = Func(self.name("kwrun"), params, t)
+        t.decls.append(h)
+        kind = f"callback-keyword-argument/{mode}/{len(kws)}-keywords-in-{order}-order"
+        h.body.add(f"r = {cbname}({others[0]})", self.site(kind))
+        h.ret = "r"
+        hexpr, hform = self.ref(ctx.mod, t, h.name)
+        g, gexpr, gform = self.plain_callee(ctx, depth, "kc")
+        self.value_access[g.qual] = gform.ref
+        args = [self.arg(ctx) for _ in pos] + [f"{k}={gexpr if k == cbname else self.arg(ctx)}" for k in written]
+        self.call_line(ctx, f"{hexpr}({', '.join(args)})", self.nsite(hform, h.qual))
+
     def e_returned(self, ctx, depth):
         t = self.pick_mod(ctx.mod)
         mk = Func(self.name("mk"), [], t)
@@ -882,7 +925,7 @@ def provenance_tag(project, site, callee_qual, recv_classes, under_try, caller_c
             if lt:
                 return lt
     # 4. the function value
-    if kind in VALUE_KINDS:
+    if kind in VALUE_KINDS or kind.startswith("callback-keyword-argument"):
         vref = project.get("value_access", {}).get(callee_qual)
         t = _ref_tag(project, vref, "function-value")
         if t and vref.get("form") == "module-attribute" and not _interference(project, vref):
